@@ -6,6 +6,7 @@ import (
 	"sort"
 	"strings"
 	"sync"
+	"sync/atomic"
 	"time"
 
 	"github.com/vx-labs/wasp/v4/wasp"
@@ -134,50 +135,57 @@ func runC06(c *fw.Ctx) {
 		ranges = append(ranges, rng{0, int32(w - 1)}, rng{1, int32(w)})
 	}
 	states, transitions := 0, 0
-	for _, r := range ranges {
-		calls := []c06Call{{Get: true}}
-		for x := r.min - 1; x <= r.max+1; x++ {
-			calls = append(calls, c06Call{X: x})
-		}
-		type node struct{ path []c06Call }
-		seen := map[string]bool{}
-		p0 := wasp.VerifNewMIDPool(r.min, r.max)
-		seen[fmt.Sprint(wasp.VerifPoolFree(p0))+"|[]"] = true
-		frontier := []node{{nil}}
-		failedClasses := map[string]bool{}
-		for len(frontier) > 0 && len(seen) < 200000 {
-			next := []node{}
-			for _, n := range frontier {
-				for _, call := range calls {
-					path := append(append([]c06Call{}, n.path...), call)
-					p, out, f := c06Replay(r.min, r.max, path)
-					transitions++
-					c.Case(fmt.Sprintf("%d-%d|%v", r.min, r.max, path), len(out) > 0 || len(n.path) > 0)
-					if f != nil {
-						if strings.HasPrefix(f.class, "prefix-") {
-							continue
+	var lastPath atomic.Value // of string: the call sequence being replayed
+	lastPath.Store("")
+	if !c.Guard("pool-exploration", time.Duration(c.Pick(60, 300))*time.Second, func() string { return lastPath.Load().(string) }, func() {
+		for _, r := range ranges {
+			calls := []c06Call{{Get: true}}
+			for x := r.min - 1; x <= r.max+1; x++ {
+				calls = append(calls, c06Call{X: x})
+			}
+			type node struct{ path []c06Call }
+			seen := map[string]bool{}
+			p0 := wasp.VerifNewMIDPool(r.min, r.max)
+			seen[fmt.Sprint(wasp.VerifPoolFree(p0))+"|[]"] = true
+			frontier := []node{{nil}}
+			failedClasses := map[string]bool{}
+			for len(frontier) > 0 && len(seen) < 200000 {
+				next := []node{}
+				for _, n := range frontier {
+					for _, call := range calls {
+						path := append(append([]c06Call{}, n.path...), call)
+						lastPath.Store(fmt.Sprintf("range [%d,%d], calls %v", r.min, r.max, path))
+						p, out, f := c06Replay(r.min, r.max, path)
+						transitions++
+						c.Case(fmt.Sprintf("%d-%d|%v", r.min, r.max, path), len(out) > 0 || len(n.path) > 0)
+						if f != nil {
+							if strings.HasPrefix(f.class, "prefix-") {
+								continue
+							}
+							if !failedClasses[f.class] {
+								failedClasses[f.class] = true
+								c.Violation("pool:"+f.class, fmt.Sprintf("range [%d,%d], calls %v: %s", r.min, r.max, path, f.what),
+									map[string]interface{}{"min": r.min, "max": r.max, "calls": fmt.Sprint(path), "observed": f.what})
+							}
+							continue // do not explore beyond a violating state
 						}
-						if !failedClasses[f.class] {
-							failedClasses[f.class] = true
-							c.Violation("pool:"+f.class, fmt.Sprintf("range [%d,%d], calls %v: %s", r.min, r.max, path, f.what),
-								map[string]interface{}{"min": r.min, "max": r.max, "calls": fmt.Sprint(path), "observed": f.what})
+						key := fmt.Sprint(wasp.VerifPoolFree(p)) + "|" + c06OutKey(out)
+						if !seen[key] {
+							seen[key] = true
+							next = append(next, node{path})
+							c.ObserveDistinct("allocator_states", fmt.Sprintf("%d-%d|%s", r.min, r.max, key))
 						}
-						continue // do not explore beyond a violating state
-					}
-					key := fmt.Sprint(wasp.VerifPoolFree(p)) + "|" + c06OutKey(out)
-					if !seen[key] {
-						seen[key] = true
-						next = append(next, node{path})
-						c.ObserveDistinct("allocator_states", fmt.Sprintf("%d-%d|%s", r.min, r.max, key))
 					}
 				}
+				frontier = next
 			}
-			frontier = next
+			states += len(seen)
+			if r.max-r.min == 2 {
+				c.Sample(map[string]interface{}{"range": fmt.Sprintf("[%d,%d]", r.min, r.max), "states": len(seen), "calls_per_state": fmt.Sprint(calls)})
+			}
 		}
-		states += len(seen)
-		if r.max-r.min == 2 {
-			c.Sample(map[string]interface{}{"range": fmt.Sprintf("[%d,%d]", r.min, r.max), "states": len(seen), "calls_per_state": fmt.Sprint(calls)})
-		}
+	}) {
+		return // the allocator blocked: nothing below can be trusted to return
 	}
 	c.Observe("bfs_states", states)
 	c.Observe("bfs_transitions", transitions)
